@@ -32,7 +32,14 @@ class _NoFmt(ast.NodeTransformer):
 
 
 def _is_guard(stmt):
-    return isinstance(stmt, ast.If) and len(stmt.body) == 1 and isinstance(stmt.body[0], ast.Raise)
+    if isinstance(stmt, ast.If) and len(stmt.body) == 1 and isinstance(stmt.body[0], ast.Raise):
+        return True
+    # a guard delegated to a validation helper: a bare call `validate_...(...)` / `_check_...(...)`
+    if isinstance(stmt, ast.Expr) and isinstance(stmt.value, ast.Call):
+        f = stmt.value.func
+        name = f.id if isinstance(f, ast.Name) else (f.attr if isinstance(f, ast.Attribute) else "")
+        return name.lstrip("_").startswith(("validate", "check"))
+    return False
 
 
 def guard_info(fn):
@@ -53,7 +60,7 @@ def blank(fn, truncate=False, stubs=None, keep_guards=None):
         idx = [i for i, s in enumerate(fdef.body) if _is_guard(s)]
         if not idx:
             raise RuntimeError(f"no top-level guard in {fn.__qualname__}: encoding out of date")
-        last = idx[-1] if keep_guards is None else idx[keep_guards - 1]
+        last = idx[-1] if keep_guards is None else idx[min(keep_guards, len(idx)) - 1]
         fdef.body = fdef.body[: last + 1] + [ast.Return(ast.Constant(None))]
     ast.fix_missing_locations(tree)
     ns = dict(vars(inspect.getmodule(fn)))
@@ -74,9 +81,40 @@ class Arr:
 _VERDICT = re.compile(r"^(?P<file>[^:]+):(?P<line>\d+): (?P<kind>info|error): (?P<msg>.*)$")
 
 
+def sanitize(harness_source):
+    """a harness block whose `blank(...)` cannot be built for the current source (the guard is no longer where this
+    encoder looks for it) is dropped together with the conditions that use it; those conditions are reported as
+    unknown.  Without this one out-of-date block makes the whole module unimportable and every guard undecided."""
+    tree = ast.parse(harness_source)
+    ns, bad, keep = {}, {}, []
+    skipped = {}
+    for node in tree.body:
+        seg = ast.get_source_segment(harness_source, node)
+        if isinstance(node, ast.FunctionDef) and node.name.startswith("g_"):
+            used = {n.id for n in ast.walk(node) if isinstance(n, ast.Name)}
+            hit = [b for b in bad if b in used]
+            if hit:
+                skipped[node.name] = f"harness block out of date: {bad[hit[0]]}"
+                continue
+            keep.append(seg)
+            continue
+        is_blank = isinstance(node, ast.Assign) and isinstance(node.value, ast.Call) and isinstance(node.value.func, ast.Name) and node.value.func.id == "blank"
+        try:
+            exec(compile(ast.Module([node], []), "<guard_harness>", "exec"), ns)
+            keep.append(seg)
+        except Exception as ex:
+            if not is_blank:
+                raise
+            for t in node.targets:
+                if isinstance(t, ast.Name):
+                    bad[t.id] = f"{type(ex).__name__}: {ex}"
+    return "\n\n".join(keep) + "\n", skipped
+
+
 def run(harness_source, per_condition_timeout=20, extra_path=()):
     """returns ({function name: (status, message)}, seconds)"""
     t0 = time.time()
+    harness_source, skipped = sanitize(harness_source)
     here = os.path.dirname(os.path.dirname(os.path.abspath(__file__)))
     with tempfile.TemporaryDirectory(prefix="guards_") as d:
         path = os.path.join(d, "guard_harness.py")
@@ -112,9 +150,13 @@ def run(harness_source, per_condition_timeout=20, extra_path=()):
             rank = {"sat": 2, "unknown": 1, "unsat": 0}
             if prev is None or rank[st] > rank[prev[0]]:
                 res[fn] = (st, msg)
+        if not res:
+            sys.stderr.write("guards.run: CrossHair reported no verdict at all; tail of its output:\n" + out[-2500:] + "\n")
         for a, b, name in spans:
             if name.startswith("g_") and name not in res:
                 res[name] = ("unknown", "no verdict reported: " + out[-300:])
+        for name, why in skipped.items():
+            res[name] = ("unknown", why)
     return res, time.time() - t0
 
 
